@@ -93,6 +93,7 @@ func BuildConfig(rp *plan.RouterPlan, pki *peers.PKI, dir string) (*router.Confi
 	cfg.Cache.MemSize = rp.Cache.MemSize
 	cfg.Cache.MaximumTTL = rp.Cache.MaxTTL
 	cfg.Metrics.Addr = rp.MetricsAddr
+	cfg.Log.Queries = rp.LogQueries
 	if rp.Cache.Redis != nil {
 		cfg.Cache.Redis = "redis://10.2.0.1:6379"
 	}
